@@ -5,6 +5,8 @@ package c08
 import (
 	"fmt"
 
+	"github.com/prometheus/alertmanager/cluster"
+
 	"verifharness/tlsrestart"
 	"verifharness/vh"
 )
@@ -36,7 +38,32 @@ func tlsRestartJudge(env vh.Env, run *vh.Run) {
 			scs = append(scs, tlsrestart.Scenario{Kind: kinds[i%3], Pre: r.Range(1, 3), DownMs: vh.Pick(r, []int{0, 20, 100}), After: 24, IntervalMs: 15, Size: vh.Pick(r, []int{80, 300})})
 		}
 	}
+	if env.Replay == "" || (len(scs) == 1 && scs[0].Kind == "size-sweep") {
+		// every packet size memberlist may hand to the transport must be delivered over TLS: a later-positioned member
+		// must also get log entries that are big but not oversized (compound packets are filled up to the limit)
+		var sizes []int
+		for n := cluster.MaxGossipPacketSize - 120; n <= cluster.MaxGossipPacketSize; n++ {
+			sizes = append(sizes, n)
+		}
+		sizes = append(sizes, 16, 700, 701)
+		o := tlsrestart.Sweep(sizes)
+		switch {
+		case o.Skipped != "":
+			run.Count("tls_restart_part", "size sweep skipped: "+o.Skipped)
+		case o.Arrived != o.Sent:
+			run.Count("tls_restart_part", "size sweep: packets refused")
+			run.Violate("near-full-gossip-packet-not-delivered-over-tls",
+				fmt.Sprintf("packets of every size from %d to MaxGossipPacketSize=%d bytes were sent over the TLS transport (WriteTo returned nil for %d): only %d arrived, the smallest lost has %d bytes; the reading side drops the connection, so every later entry to that member is lost too and it notifies again (last send error: %s)",
+					cluster.MaxGossipPacketSize-120, cluster.MaxGossipPacketSize, o.Sent, o.Arrived, o.SmallestLost, o.LastErr),
+				TLSRestartCase{Kind: "tlsrestart", Sc: tlsrestart.Scenario{Kind: "size-sweep"}})
+		default:
+			run.Count("tls_restart_part", fmt.Sprintf("size sweep: %d sizes up to MaxGossipPacketSize delivered", o.Arrived))
+		}
+	}
 	for _, sc := range scs {
+		if sc.Kind == "size-sweep" {
+			continue
+		}
 		o := tlsrestart.Run(sc)
 		switch {
 		case o.Skipped != "":
